@@ -4,8 +4,8 @@ from . import kvcommon as KV
 
 META = {
     "level": "proof",
-    "technique": ("Lean 4 theorems over all (expiry, now) pairs for the comparison extracted at every expiry-aware site (18 go/ast facts: "
-                  "operator and zero guard of IsExpired, ShiftExpired, SelectExpiredForPatch(+WithCap), the five index-membership "
+    "technique": ("Lean 4 theorems over all (expiry, now) pairs for the comparison extracted at every expiry-aware site (16 go/ast facts: "
+                  "operator and zero guard of IsExpired, ShiftExpired, SelectExpiredForPatchWithCap, the five index-membership "
                   "guards, the ExpiredAt filter, IS_EMPTY, SetExpirationTime, patch-meta order, wire output); correspondence of an "
                   "executable model of the expiry-aware requests with the real gateway"),
     "text": ("Hv.Data.paths_agree: with `exp != 0 && exp < now` at every claim site and `exp != 0` at every index-membership site, all "
@@ -22,7 +22,8 @@ META = {
              "GetByIndex / the ExpiredAt filter answer alike on every history, ordered reads are sorted, reload preserves the index — are "
              "TESTED (correspondence + the expiry oracle over implementation replies), not proved; that the handlers apply the predicates as modelled (index build and maintenance, "
              "claim walks, patch metadata) is validated by the correspondence run, not proved. Expiries of different keys are kept "
-             "distinct (the index sort is unstable). Timing: past expiries may be arbitrarily close to the case base (requests run after it), future ones are >= 20 s away, the one expiry that passes during a case is bracketed by waits (3 s of slack before, certain after)."),
+             "distinct (the index sort is unstable). Timing: past expiries may be arbitrarily close to the case base (requests run after it), future ones are >= 120 s away and every case ends with a real-time bracket (`within 60000`: answered `hang slow` on a machine too slow, which makes /verif/check re-run the case alone); the one expiry that passes during a case is bracketed by `within 2800` before and a wait that ends after it. "
+             "NOT COVERED: Holds is a list of per-site equalities (IsExpired, ShiftExpired, SelectExpiredForPatchWithCap, five index-membership guards, the `<` filter, IS_EMPTY, SetExpirationTime, clear-over-set, wire) — of the filter operators only `ExpiredAt < ref` is in a theorem (le / gt / ge / ne / empty / notempty are exercised by fexp requests); there is no clause and no test for the claim re-validation under the record guard (swamp.go, shift of a record whose expiry moved between selection and claim), the ShiftMatching window or findTimeRangeBounds."),
     "design_ref": "§8 C30",
 }
 
@@ -71,7 +72,7 @@ def run(ctx):
               "mixes of Set with expiry, PatchTreasures metadata (set / slide / clear, clear+set), Increment with expiry metadata, "
               "ShiftExpiredTreasures, PatchExpiredTreasures, GetByIndex(EXPIRATION_TIME asc/desc, from/limit), ExpiredAt filters "
               "(lt le gt ge ne IS_EMPTY IS_NOT_EMPTY against now / base / epoch), Get/GetAll/Delete, close+reload on persistent "
-              "swamps; expiries are an hour / 50 ms / 1 µs before and an hour / 20 s after the case base, 1970+1 s, pre-epoch, epoch; every case ends with "
+              "swamps; expiries are an hour / 50 ms / 1 µs before and an hour / two minutes after the case base, 1970+1 s, pre-epoch, epoch; every case ends with "
               "GetAll, GetByIndex, filter, ShiftExpired, GetAll; non-trivial = >= 3 ops; distinct = distinct case texts"),
         samples=samples,
         evaluations=len(c.ops),
@@ -91,7 +92,7 @@ def run(ctx):
 # ShiftExpired(0) must return exactly the records GetAll showed with an expiry in the past, the
 # `ExpiredAt < now` filter the same keys, GetByIndex(asc,0,0) the records with an expiry, oldest first.
 
-SLACK_NS = 10_000_000_000     # a future expiry closer than this to the evaluation is not judged
+SLACK_NS = 60_000_000_000     # a future expiry closer than this to the evaluation is not judged
 
 
 def _tok(tok):
@@ -121,18 +122,40 @@ def expiry_case_devs(ops, impl, skip, stats=None):
     stats = stats if stats is not None else {}
     devs = []
     view = None          # key -> expiry token from the last GetAll, valid until the next mutating op
+    before_close = None  # the view of a GetAll that a close directly followed
+    tainted = "kind=mem" in ops[0]    # an in-memory swamp keeps nothing across a close
     waited = 0
     for i in range(1, min(len(ops), len(impl))):
         f = ops[i].split(" ")
         got = impl[i]
+        if got.startswith("hang") or got == "skip":
+            break
+        if f[0] == "within":
+            continue
+        if f[0] == "busyshift":
+            view = None
+            continue
         if f[0] == "wait":
             waited += int(f[1]) * 1_000_000
             continue         # a wait changes no record: the view stays, `waited` moves
+        if f[0] == "inc" and len(f) > 4 and f[4] != "-":
+            tainted = True       # a failed conditional Increment may have left an unsaved expiry (listed finding of C05)
+        if f[0] in ("close", "closeidle", "restart") and got == "ok":
+            # GetAll / close / GetAll: every record keeps its expiry (and exists) across the reload
+            before_close = view if (i > 1 and ops[i - 1] == "getall" and not tainted and i - 1 not in skip) else None
+            view = None
+            continue
         if f[0] == "getall" and got.startswith("getall"):
             view = {}
             for item in got.split(" ")[1:]:
                 k, rec = item.split("=", 1)
                 view[k] = rec.split("|")[5]
+            if before_close is not None and i > 1 and ops[i - 1] in ("close", "closeidle", "restart"):
+                stats["checked"] = stats.get("checked", 0) + 1
+                if view != before_close:
+                    want = " ".join("%s:%s" % (k, before_close[k] or "-") for k in sorted(before_close))
+                    devs.append((i, ops[i], "the expiries shown before the close (" + want + ")", got))
+            before_close = None
             continue
         if view is None or i in skip:
             if f[0] not in _READS:
